@@ -224,8 +224,56 @@ func plan() harness.Plan {
 	}}
 }
 
+// nameLengthDocs puts a tag whose name has every length of a range into an
+// HTML block, a paragraph and a line of its own: anything in the filter that is
+// bounded or indexed by the length of a name is crossed at every size.
+func nameLengthDocs(thorough bool) ([][]byte, []string) {
+	var lens []int
+	if thorough {
+		for l := 1; l <= 1100; l++ {
+			lens = append(lens, l)
+		}
+	} else {
+		for l := 1; l <= 70; l++ {
+			lens = append(lens, l)
+		}
+		for _, c := range []int{128, 256, 512, 1024, 4096} {
+			lens = append(lens, c-1, c, c+1)
+		}
+	}
+	var docs [][]byte
+	var names []string
+	for _, l := range lens {
+		forms := []string{strings.Repeat("a", l), "s" + strings.Repeat("C", l-1)}
+		if l >= 6 {
+			forms = append(forms, "script"+strings.Repeat("-", l-6))
+		}
+		if l%2 == 0 {
+			forms = append(forms, strings.Repeat("<a", l/2)[1:])
+		}
+		for _, n := range forms {
+			low := strings.ToLower(n)
+			for _, d := range []string{"<div>\n<" + n + ">\n</div>\n", "a <" + n + "> b\n", "<" + n + " x=y>\n", "> - <" + n + "\n>   y='>'>\n"} {
+				docs = append(docs, []byte(d))
+				names = append(names, low)
+			}
+		}
+	}
+	return docs, names
+}
+
 func TestProperty(t *testing.T) {
-	harness.Run(t, plan())
+	p := plan()
+	p.Checks = append(p.Checks, harness.Check{Name: "name_lengths", Prop: prop, Rule: "enumerated: a tag whose name has every length 1..70 and around 128, 256, 512, 1024, 4096 (thorough: every length to 1100), as one letter repeated, in mixed case, as 'script' plus hyphens and as a run of '<a', in an HTML block, a paragraph, a line of its own and split over two lines in a container, under reject-all, GFM, reject-none and the predicate that rejects exactly that name: " + rule})
+	p.After = func(t *testing.T) {
+		docs, names := nameLengthDocs(harness.Cfg().Tier == "thorough")
+		harness.EnumerateInputs(t, p, "name_lengths", docs, func(i int, in []byte) harness.Case {
+			c := harness.Case{In: in}
+			c.SetS("names", "set:"+names[i])
+			return c
+		}, prop)
+	}
+	harness.Run(t, p)
 }
 
 // FuzzProperty is the native coverage-guided fuzz entry (thorough tier).
